@@ -235,6 +235,31 @@ func genC20(g *Gen, tier string, w *bufio.Writer) {
 		}
 	}
 	emitWrapProbes(w, "mem")
+	// many small elements in one large parent scope (per-element work must not grow with the parent)
+	u8t := &Ty{Kind: KUint, N: 1}
+	u64t := &Ty{Kind: KUint, N: 8}
+	for _, el := range []*Ty{
+		{Kind: KContainer, Fields: []*Ty{u64t, u64t}},
+		{Kind: KList, N: 16, Elem: u8t},
+		{Kind: KContainer, Fields: []*Ty{u8t, {Kind: KList, N: 4, Elem: u8t}}},
+		{Kind: KBitlist, N: 40},
+		{Kind: KUnion, Fields: []*Ty{u8t, u64t}},
+	} {
+		for _, n := range []int{64, 512, 1500} {
+			lt := &Ty{Kind: KList, N: 1 << 20, Elem: el}
+			v := &Val{Kind: VSeq, Seq: make([]*Val, n)}
+			for i := range v.Seq {
+				v.Seq[i] = g.RandVal(el, 6)
+			}
+			bs := refSer(lt, v)
+			fmt.Fprintf(w, "mem %s %s\n", lt, hexs(bs))
+			fmt.Fprintf(w, "mem %s %s\n", lt, hexs(bs[:len(bs)-1]))
+			if n <= 512 {
+				vt := &Ty{Kind: KVector, N: uint64(n), Elem: el}
+				fmt.Fprintf(w, "mem %s %s\n", vt, hexs(refSer(vt, v)))
+			}
+		}
+	}
 }
 
 // wrapProbeTypes: lists of variable-size elements whose element type has minimum encoded size m,
